@@ -357,6 +357,8 @@ def run_crate_unit(unit, tier, seed, scratch=None, do_canaries=True, only=None):
                     nat = native_replay(scratch, fn, cex['replay_input'])
                 api = None
                 if cex and h.get('api'):
+                    if h.get('api_map'):
+                        cex['named']['ch'] = h['api_map'].get(cex['replay_input'], '?')
                     api = replay_api_template(h['api'], cex)
                 status = 'violation'
                 for fc in pr['failed_checks'] or [{'check': 'verification failed', 'file': '', 'line': 0, 'in': ''}]:
